@@ -493,7 +493,131 @@ func isPredeclared(name string) bool {
 
 func run(c *driver.Ctx) {
 	armStatic(c)
+	armSequences(c)
 	armRecursion(c)
+}
+
+// ---- exhaustive parameter / argument sequences ----
+
+// validParams implements the spec's ordering rules for a parameter list over the kinds
+// r (required), o (optional), S (bare *), A (*args), K (**kwargs):
+//   r* o* [ (S|A) (r|o)* ] [K], a bare * being followed by at least one keyword-only parameter.
+func validParams(seq string) bool {
+	i := 0
+	for i < len(seq) && seq[i] == 'r' {
+		i++
+	}
+	for i < len(seq) && seq[i] == 'o' {
+		i++
+	}
+	if i < len(seq) && (seq[i] == 'S' || seq[i] == 'A') {
+		bare := seq[i] == 'S'
+		i++
+		n := 0
+		for i < len(seq) && (seq[i] == 'r' || seq[i] == 'o') {
+			i++
+			n++
+		}
+		if bare && n == 0 {
+			return false
+		}
+	}
+	if i < len(seq) && seq[i] == 'K' {
+		i++
+	}
+	return i == len(seq)
+}
+
+// validArgs: positional* named* [*x] [**x].
+func validArgs(seq string) bool {
+	i := 0
+	for i < len(seq) && seq[i] == 'p' {
+		i++
+	}
+	for i < len(seq) && seq[i] == 'n' {
+		i++
+	}
+	if i < len(seq) && seq[i] == 's' {
+		i++
+	}
+	if i < len(seq) && seq[i] == 'k' {
+		i++
+	}
+	return i == len(seq)
+}
+
+func enumerate(alphabet string, maxLen int, f func(seq string)) {
+	var rec func(cur string)
+	rec = func(cur string) {
+		f(cur)
+		if len(cur) == maxLen {
+			return
+		}
+		for _, ch := range alphabet {
+			rec(cur + string(ch))
+		}
+	}
+	rec("")
+}
+
+func armSequences(c *driver.Ctx) {
+	maxLen := c.Pick(4, 6)
+	opts := &syntax.FileOptions{}
+	check := func(kind, seq, src string, want bool) {
+		_, _, err := starlark.SourceProgramOptions(opts, "seq.star", src, func(string) bool { return false })
+		c.Eval(1)
+		got := err == nil
+		if got != want {
+			key := "C09 accepted misordered-" + kind
+			if want {
+				key = "C09 rejected-valid " + kind + "-sequence"
+			}
+			c.Violation(key, fmt.Sprintf("%s sequence %q: %q: expected accept=%v, got accept=%v (%v)", kind, seq, src, want, got, err), map[string]any{"source": src})
+		}
+		c.Distinct(kind + ":" + seq)
+	}
+	if !c.Take() {
+		return
+	}
+	enumerate("roSAK", maxLen, func(seq string) {
+		var ps []string
+		for i, ch := range seq {
+			switch ch {
+			case 'r':
+				ps = append(ps, fmt.Sprintf("a%d", i))
+			case 'o':
+				ps = append(ps, fmt.Sprintf("a%d=%d", i, i))
+			case 'S':
+				ps = append(ps, "*")
+			case 'A':
+				ps = append(ps, fmt.Sprintf("*a%d", i))
+			case 'K':
+				ps = append(ps, fmt.Sprintf("**a%d", i))
+			}
+		}
+		want := validParams(seq)
+		check("parameter", seq, "def f("+strings.Join(ps, ", ")+"):\n    pass\n", want)
+		check("lambda-parameter", seq, "f = lambda "+strings.Join(ps, ", ")+": 0\n", want)
+		c.Count("parameter_sequences", 1)
+	})
+	enumerate("pnsk", maxLen, func(seq string) {
+		var as []string
+		for i, ch := range seq {
+			switch ch {
+			case 'p':
+				as = append(as, fmt.Sprint(i))
+			case 'n':
+				as = append(as, fmt.Sprintf("n%d=%d", i, i))
+			case 's':
+				as = append(as, "*[]")
+			case 'k':
+				as = append(as, "**{}")
+			}
+		}
+		check("argument", seq, "def f(*a, **k):\n    pass\nx = f("+strings.Join(as, ", ")+")\n", validArgs(seq))
+		c.Count("argument_sequences", 1)
+	})
+	c.Count("exhaustive_subspace_completed", 1)
 }
 
 func armStatic(c *driver.Ctx) {
@@ -708,6 +832,17 @@ func armRecursion(c *driver.Ctx) {
 				}
 				for _, f := range forms {
 					c.Cover("recursion_call_forms", f)
+				}
+				// the same graph entered by the host through starlark.Call on an empty call stack
+				// (the re-entered function is then the bottom frame of the thread)
+				src2 := strings.Replace(src, "result = f0(3)\n", "", 1)
+				what2, desc2, ok2, msg2 := c01.PairCall(opts, src2, "f0", 3)
+				c.Eval(1)
+				if what2 != "" && what2 != "module-failed" {
+					c.Violation("C09 recursion host-call "+what2, desc2, map[string]any{"source": src2, "recursion_option": rec, "entry": "starlark.Call(f0, 3) on a fresh thread"})
+				}
+				if !ok2 && strings.Contains(msg2, "called recursively") {
+					c.Count("recursion_detected_host_call", 1)
 				}
 			}
 		}
